@@ -132,6 +132,41 @@ def run_seeded_mutants(prop):
     return out
 
 
+def run_benign_refactorings(prop):
+    """Thorough tier: behaviour-preserving refactorings (/verif/benign) applied to a scratch
+    copy of /repo; the quick check of the property must stay quiet (exit 0) on each."""
+    import shutil
+    import subprocess
+    import tempfile
+    out = []
+    bd = os.path.join(core.VERIF, "benign")
+    if not os.path.isdir(bd):
+        return out
+    for name in sorted(os.listdir(bd)):
+        mp = os.path.join(bd, name, "meta.json")
+        pp = os.path.join(bd, name, "patch.diff")
+        if not (os.path.exists(mp) and os.path.exists(pp)):
+            continue
+        if prop not in json.load(open(mp)).get("props", []):
+            continue
+        scratch = tempfile.mkdtemp(prefix="vb_", dir=os.environ.get("VERIF_SCRATCH", "/var/tmp"))
+        try:
+            subprocess.run(["rsync", "-a", "--exclude", "_build", "--exclude", ".git", core.REPO + "/", scratch + "/"], check=True)
+            r = subprocess.run(["git", "apply", "--unsafe-paths", "--directory", scratch, pp], capture_output=True, text=True, cwd="/")
+            if r.returncode != 0:
+                out.append({"id": name, "quiet": None, "tail": "patch does not apply (tree has moved on): " + (r.stdout + r.stderr)[-300:]})
+                continue
+            env = dict(os.environ)
+            env["VERIF_REPO"] = scratch
+            env["VERIF_IN_MUTANT"] = "1"
+            r = subprocess.run([os.path.join(core.VERIF, "check"), prop, "--tier", "quick", "--no-evidence"],
+                               capture_output=True, text=True, env=env)
+            out.append({"id": name, "quiet": r.returncode == 0, "exit": r.returncode, "tail": r.stdout[-400:]})
+        finally:
+            shutil.rmtree(scratch, ignore_errors=True)
+    return out
+
+
 def main(argv):
     ap = argparse.ArgumentParser()
     ap.add_argument("prop", nargs="?")
@@ -271,6 +306,13 @@ def main(argv):
             if not m["killed"]:
                 print("TOOLING: seeded change %s (breaks %s) is NOT detected by this check: %s" % (m["id"], prop, m["tail"][-300:]))
                 rc = 2
+    benign = []
+    if tier == "thorough" and not a.unit and rc == 0 and os.environ.get("VERIF_IN_MUTANT") != "1":
+        benign = run_benign_refactorings(prop)
+        for b in benign:
+            if b["quiet"] is False:
+                print("TOOLING: this check is not quiet (exit %s) on the behaviour-preserving refactoring %s: %s" % (b.get("exit"), b["id"], b["tail"][-300:]))
+                rc = 2
     wall = time.time() - t0
     if not a.no_evidence and not a.unit:
         checker = "goto-cc <harness including the real /repo .c> | goto-instrument --dfcc <entry> --enforce-contract <fn> [--replace-call-with-contract g] [--loop-contracts-file L --apply-loop-contracts] | cbmc --json-ui " + " ".join(core.DEFAULT_CBMC_FLAGS) + " --unwind N --unwinding-assertions (see units[].)"
@@ -300,6 +342,8 @@ def main(argv):
                 "seeded_mutants": mutants,
                 "mutants_killed": sum(1 for m in mutants if m["killed"]),
                 "mutants_total": len(mutants),
+                "benign_refactorings": benign,
+                "benign_quiet": sum(1 for b in benign if b["quiet"]),
             },
             "assumptions": TRUSTED_COMMON + sorted(assumptions),
             "wall_s": round(wall, 2),
